@@ -1020,6 +1020,9 @@ class Renderer:
         lines.append('/* generated by g2c from the DWARF of the same g++ run that produced the GIMPLE */')
         for q in sorted(lay):
             lines.append('%s %s;' % (lay[q]['kind'], cn(q)))
+        for uid, v in sorted(ans['structs'].items()):
+            if v.get('incomplete'):
+                lines.append('struct %s; /* incomplete in this translation unit: %s */' % (cn(v['qname']), v['qname']))
         def emit(q, stack=()):
             if q in emitted:
                 return
